@@ -9,7 +9,13 @@ covariance, model values / constraint cost / cost at 3 parameter points, fixed /
 stored results, result of a refit) and the observations are compared group by group; the first
 divergence ends the history.  Second cycle: the parsed YAML documents of save(obj) and
 save(load(save(obj))) are compared as data.  Further histories: write-write-read on one path (long
-object then short object) and save_state / load_state into a freshly built twin fit.
+object then short object) and save_state / load_state into a freshly built twin fit.  Last stage of a fit history
+("post-load"): original and reloaded fit receive the same further operations (sources switched off / on, a new
+data- or model-referenced source, parameter values, fixing / releasing) and are observed after each of them
+(enabled flags, total uncertainties, parameter state, cost): a reloaded object has to follow them as the original does.
+Input classes added for recorded defects: value of an already fixed parameter changed before saving (by name /
+all values at once), pointwise vectors whose entries differ only in the 6th digit or are all of order 1e-11,
+cost functions handed over as objects (default and non-default options).
 """
 import linecache
 import math
@@ -55,9 +61,12 @@ RULE = (
     "object kind (XY/Indexed/Hist[raw|manual bins]/Unbinned container; XY/Indexed/Hist/Unbinned parametric model; model function as "
     "generated def source or library name, base/indexed/hist flavour; simple|matrix constraint x abs|rel x cov|cor; XY/Indexed/Hist/"
     "Unbinned/Custom fit x unfitted|fitted|fitted+asymmetric errors) x <=4 uncertainty sources (simple/matrix cov/cor, abs/rel, "
-    "data/model reference, x/y, scalar/constant/varying vector, disabled) x <=2 constraints x fixed/limited parameters x labels x "
+    "data/model reference, x/y, scalar/constant/varying/nearly-constant vector [entries equal to ~6 digits, or all of order 1e-11], "
+    "disabled) x <=2 constraints x fixed/limited parameters [fixed value changed again by name | all values] x cost function by name | "
+    "as object with default | 1-2 non-default options x labels x "
     "magnitude 1e-9..1e9; histories: save-load-observe-save (parsed documents), write-write-read on one path, save_state/load_state "
-    "into a fresh twin; non-trivial = object carries >=1 source, constraint or fit result (model functions: >=2 parameters with "
+    "into a fresh twin, post-load: <=6 identical further operations (disable/enable/add source, set/fix/release parameter) on original and "
+    "reloaded fit, observed after each; non-trivial = object carries >=1 source, constraint or fit result (model functions: >=2 parameters with "
     "distinct defaults) AND >=1 discriminating field pair is unequal (underflow != overflow, relative constraint on value != 1, "
     "disabled source, varying vector, x != y source, cor matrix with non-unit errors, lower != -upper limit, parameter != default, ...); "
     "distinct by case hash"
@@ -72,6 +81,11 @@ ASSUMPTIONS = [
     "parsed documents: computed fields (cost, goodness of fit, chi2 probability, model y values) to LINALG, everything else 1e-15 relative",
     "dynamic_error_algorithm is compared only where it can influence a refit (model-relative sources, x uncertainties of an XYFit)",
     "non-ASCII labels are not generated (the file is opened with the locale's default encoding)",
+    "post-load stage: equivalence of the reloaded object includes its reaction to the same public mutators; compared are enabled flags, total "
+    "uncertainties (1e-15), parameter values / fixed / limits (exact) and the cost (LINALG); the first source of a fit is never switched off; an "
+    "operation that fails on the original ends the stage (discard); did_fit / stored results are not compared after a mutation",
+    "cost function objects: IndexedFit / HistFit get the base classes their own name table uses (the Indexed... / Hist... classes are empty "
+    "subclasses; the class name of the restored object is not part of the statement)",
 ]
 ANCHORS = [
     ("kafe2.fit.io.file", "FileIOMixin.to_file"),
